@@ -410,6 +410,24 @@ func (m *VM) RefKey(ks *KeySel, id *uint32) ed25519.PublicKey {
 	return nil
 }
 
+// scratchAuthorizer returns an authorizer in which a policy file can be prepared: preferably one
+// for ANOTHER honest token of the run that verifies under the same keys (a snapshot may be loaded
+// into an authorizer for any token), else one for t itself, else nil.
+func (m *VM) scratchAuthorizer(t *TokObj, ks *KeySel, lim *Lim, via string) biscuit.Authorizer {
+	for _, s := range m.Slots {
+		if o, ok := s.(*TokObj); ok && o != t && !o.Hostile && o.B != nil {
+			if a, err, ok := m.newAuthorizer(o, ks, lim, via); ok && err == nil && a != nil {
+				m.Probe("policy_file_prepared_with_another_token")
+				return a
+			}
+		}
+	}
+	if a, err, ok := m.newAuthorizer(t, ks, lim, via); ok && err == nil && a != nil {
+		return a
+	}
+	return nil
+}
+
 // addViaLoad: the content reaches authorizer a as a stored policy file. A scratch authorizer for the
 // same token is given the content and serializes it (SerializePolicies); a loads the bytes
 // (LoadPolicies). Returns false when nothing was loaded and the caller should add the content directly.
